@@ -82,12 +82,14 @@ AddValid(s, i, b, sv) ==
              res |-> IF conflicting THEN "conflict_added" ELSE "added"]
 
 (* A vote that fails one of the checks.  Kinds, in the order the code tests them:       *)
-(*   "height" "round" "type"  -> ErrVoteUnexpectedStep                                   *)
+(*   "height" "heightlow" "round" "roundlow" "type"  -> ErrVoteUnexpectedStep             *)
 (*   "index"                  -> index beyond the set                                    *)
 (*   "addr"                   -> address of another validator                            *)
 (*   "sig" "chain"            -> signature does not verify (tested AFTER the duplicate   *)
 (*                               lookup, so a known (i, b) yields "nondet" instead)      *)
-InvalidKinds == {"height", "round", "type", "index", "addr", "sig", "chain"}
+InvalidKinds == {"height", "heightlow", "round", "roundlow", "type", "index", "addr", "sig", "chain"}
+\* ("height"/"round": one above the set's; "heightlow"/"roundlow": one below - a straggler of an earlier round, the
+\*  input LastCommit.AddVote can really meet)
 AddInvalid(s, i, b, kind) ==
   [st  |-> s,
    res |-> IF kind \in {"sig", "chain"} /\ Existing(s, i, b) # 0 THEN "nondet" ELSE "invalid"]
